@@ -80,7 +80,10 @@ class PdoSave(Contract):
 
     def setup(self, w, case):
         dev, com, mp, flags = mk_device(w)
-        cfg, vs = mk_config(w, case, flags)
+        # the optional communication parameters (set or not, present or not) are exercised with the small mappings
+        cfg, vs = mk_config(w, case, flags, optional=(case <= 2))
+        if cfg["trans_type"] is not None and case > 2 and w.bool("tt_unset"):
+            cfg["trans_type"] = None
         net = w.obj("env.net:Net")
         pm = mk_pdomap(w, com, mp, net, cfg)
         w.pre.update(dev=dev, pm=pm, cfg=cfg, vs=vs, n=case)
@@ -149,7 +152,7 @@ class PdoSaveRead(Contract):
 
     def setup(self, w, case):
         dev, com, mp, flags = mk_device(w)
-        cfg, vs = mk_config(w, case, flags, optional=(case <= 1))
+        cfg, vs = mk_config(w, case, flags, optional=(case == 0))
         if cfg["trans_type"] is None:
             cfg["trans_type"] = w.int("trans_type", 0, 255)
         net_a, net_b = w.obj("env.net:Net"), w.obj("env.net:Net")
